@@ -226,6 +226,7 @@ pub struct ChunkReader {
     plan: ChunkPlan,
     fault: Fault,
     budget: u64,
+    eof_answers: u32,
     pub log: Rc<RefCell<ReaderLog>>,
     record_delivered: bool,
 }
@@ -239,6 +240,7 @@ impl ChunkReader {
             plan,
             fault,
             budget,
+            eof_answers: 0,
             log: Rc::new(RefCell::new(ReaderLog {
                 reads: 0,
                 max_offered: 0,
@@ -288,6 +290,14 @@ impl Read for ChunkReader {
             if self.pos >= end && end < self.data.len() && !log.fault_fired {
                 log.fault_fired = true;
                 probe("e1.fault.early_eof");
+            }
+            if self.pos >= end && !buf.is_empty() {
+                // a genuine EOF answer; a consumer that keeps asking after a handful of these spins
+                self.eof_answers += 1;
+                if self.eof_answers > 16 {
+                    log.budget_exceeded = true;
+                    return Err(io::Error::other("harness: reader asked again and again after EOF"));
+                }
             }
             return Ok(0);
         }
@@ -409,7 +419,8 @@ pub fn draw_content(for_c09: bool) -> Content {
         doc.lines.extend(tail);
     }
     let eol = symgen::draw_eol();
-    let terminated = !chance("content.unterminated", 1, 6);
+    // files with several long lines are where a dangling last line meets a grown buffer
+    let terminated = if size_class >= 8 { !chance("content.unterminated.long", 1, 2) } else { !chance("content.unterminated", 1, 6) };
     if !terminated {
         probe("e1.unterminated_last_line");
     }
@@ -714,7 +725,7 @@ pub fn run_c10() -> Outcome {
             if split_in_crlf(&data, &s.sizes) {
                 probe("e1.split_in_crlf");
             }
-            simkit::ensure!(!s.budget_exceeded, "c10.read_budget", "{} parse called read more than 2*len+64 times", name);
+            simkit::ensure!(!s.budget_exceeded, "c10.read_budget", "{} parse called read more than 2*len+64 times or kept reading after EOF", name);
             // (b) prefix clause: always
             if let Err(e) = &s.callback_ok {
                 return Err(Violation::new("c10.callback_not_prefix", format!("{name}: {}", normalise(e))));
@@ -812,7 +823,7 @@ fn c09_general() -> Outcome {
         info["peak_window_bytes"] = json!(s.peak_window);
         nontrivial = s.fault_fired || s.max_offered > 10 * 1024;
         // 2. terminates
-        simkit::ensure!(!s.budget_exceeded, "c09.read_budget", "read was called more than 2*len+64 times (the parser does not make progress)");
+        simkit::ensure!(!s.budget_exceeded, "c09.read_budget", "read was called more than 2*len+64 times, or more than 16 times after the reader had answered EOF (the parser does not make progress)");
         // 3. bounded window
         simkit::ensure!(s.max_offered <= MAX_BUFFER, "c09.buffer_cap", "a buffer larger than 160 KiB was offered to the reader");
         let delivered: &[u8] = s.delivered.as_deref().unwrap_or(&data);
@@ -909,7 +920,7 @@ fn c09_long_line_dropped() -> Outcome {
         let s = if chance("c09.ll.async", 1, 4) { parse_async(data.clone(), &plan, BodyFault::None)? } else { parse_sync(data.clone(), plan.clone(), Fault::None) };
         keyparts.extend(s.sizes.iter().flat_map(|x| x.to_le_bytes()));
         probe("e1.recovery_entered");
-        simkit::ensure!(!s.budget_exceeded, "c09.read_budget", "read was called more than 2*len+64 times (the parser does not make progress)");
+        simkit::ensure!(!s.budget_exceeded, "c09.read_budget", "read was called more than 2*len+64 times, or more than 16 times after the reader had answered EOF (the parser does not make progress)");
         simkit::ensure!(s.max_offered <= MAX_BUFFER, "c09.buffer_cap", "a buffer larger than 160 KiB was offered to the reader");
         if let Err(e) = &s.callback_ok {
             return Err(Violation::new("c09.callback_not_prefix", normalise(e)));
@@ -964,7 +975,7 @@ fn c09_giant_line() -> Outcome {
     let result = (|| -> simkit::Check {
         let s = parse_sync(data.clone(), plan.clone(), Fault::None);
         keyparts.extend(s.sizes.iter().take(64).flat_map(|x| x.to_le_bytes()));
-        simkit::ensure!(!s.budget_exceeded, "c09.read_budget", "read was called more than 2*len+64 times (the parser does not make progress)");
+        simkit::ensure!(!s.budget_exceeded, "c09.read_budget", "read was called more than 2*len+64 times, or more than 16 times after the reader had answered EOF (the parser does not make progress)");
         simkit::ensure!(s.max_offered <= MAX_BUFFER, "c09.buffer_cap", "a buffer larger than 160 KiB was offered to the reader");
         simkit::ensure!(s.peak_window <= window_bound(data.len(), true), "c09.memory_window", "peak live heap while parsing a giant line exceeded 1 MiB (the parser keeps more than a fixed window of unparsed input)");
         if let Err(e) = &s.callback_ok {
